@@ -9,7 +9,7 @@ VARIABLES S, L
 Keys == {"k1", "k2"}
 Vals == {"v1", "v2", ""}
 Proofs == {"sentinel", "empty", "nil", "other", "sentinelx", "real"}
-HCs == {"zero", "cur", "future"}
+HCs == {"zero", "cur", "next", "future"}
 Stores == UNION { [d -> Vals] : d \in SUBSET Keys }
 VActs == [a : {"VM"}, key : Keys, val : Vals, proof : Proofs, plen : 1..3, hc : HCs]
     \cup [a : {"VNM"}, key : Keys, proof : Proofs, plen : 1..3, hc : HCs]
@@ -41,8 +41,10 @@ TableInv == \A a \in VActs : LET r == Step(S, a).res IN
                /\ P_MembershipIffStore(S, a, r) /\ P_NonMembershipIffAbsent(S, a, r) /\ P_ClientOpsRefused(a, r)
                /\ (a.a = "VM" /\ r = "ok" => a.key \in DOMAIN S.store /\ S.store[a.key] = a.val)
                /\ (a.a = "VNM" /\ r = "ok" => a.key \notin DOMAIN S.store)
-               /\ ~(a.a \in {"VM", "VNM"} /\ r = "ok" /\ a.proof # "sentinel")
-LoopInv == LI_NotBoth(L) /\ L.rcpt \subseteq L.commit \cup { L.log[i].seq : i \in DOMAIN L.log }
+               /\ ~(a.a \in {"VM", "VNM"} /\ r = "ok" /\ (a.proof # "sentinel" \/ a.hc \in {"next", "future"}))
+LoopInv == /\ LI_NotBoth(L) /\ L.rcpt \subseteq L.commit \cup { L.log[i].seq : i \in DOMAIN L.log }
+           \* the design satisfies C04: whatever proof height is claimed, an accepted timeout is never early
+           /\ \A a \in LActs(L) : LP_NotEarly(L, a, LStep(L, a).res) /\ LP_Unreceived(L, a, LStep(L, a).res)
 \* a receive and a timeout of the same packet are never both enabled in one state
 Exclusive == \A q \in DOMAIN L.sent : \A p \in {L.h, L.h + 100} :
                 ~(LStep(L, [a |-> "LRecv", dt |-> 1, seq |-> q]).res = "ok"
